@@ -238,11 +238,12 @@ def structure_items(repo):
     pf = repo.func(f"{PARSER}.preprocess_file")
     psrc = ast.unparse(pf.node)
     lit = ("template = str(value).replace('\\\\', '\\\\\\\\')" in psrc and "def_regex.subn(template, line)" in psrc
-           and "sub = sub.replace('\\\\', '\\\\\\\\')" in psrc)
+           and "expansion = arg_regex.sub(lambda m: arg_map[m.group(0)], body)" in psrc and psrc.count(".subn(") == 1
+           and psrc.count("arg_regex.sub(") == 1)
     items.append(Item("C03/preprocess_file/template.subn", "proved" if lit else "refuted", "structural", 0.0,
                       where=pf.where(), mode="table", func=pf.qualname,
-                      detail="the replacement passed to re.subn is the macro body with its backslashes escaped "
-                             "(object-like and function-like macros)",
+                      detail="the replacement passed to re.subn is the macro body with its backslashes escaped (object-like macros); "
+                             "function-like macros insert arguments through a callable replacement, which re takes literally",
                       witness=None if lit else {"reason": "macro body used as a regex replacement template unescaped"}))
     esc = "re.compile(f'\\\\b{re.escape(def_tmp)}\\\\b')" in psrc and "re.escape(def_name)" in psrc
     items.append(Item("C03/preprocess_file/regex.escape_macro_name", "proved" if esc else "refuted", "structural", 0.0,
